@@ -1277,6 +1277,11 @@ def awaited_result(body, call):
 # Facts (whole program)
 
 
+def _norm_ty(t):
+    """type string without lifetimes / spaces, for matching type arguments against impl headers"""
+    return re.sub(r"'[a-z_]+ ?", "", t).replace(" ", "")
+
+
 class Facts:
     def __init__(self, paths):
         self.bodies = {}
@@ -1387,6 +1392,24 @@ class Facts:
             for n in list(self.bodies):
                 if n.endswith("::{closure#0}"):
                     cg[n[: -len("::{closure#0}")]].add(n)
+            # `x.try_into()` / `x.into()` go through core's blanket impls (`U: TryFrom<T>` => `T: TryInto<U>`), whose bodies are not ours: resolve
+            # them by the type arguments of the call to the crate's own `impl TryFrom<T> for U` / `impl From<T> for U`
+            conv = {}
+            for n in self.bodies:
+                m_ = re.match(r"^(?:bin:)?<(.+) as core::convert::(TryFrom|From)<(.+)>>::(try_from|from)$", n) or None
+                if m_:
+                    conv.setdefault((m_.group(2), _norm_ty(m_.group(3)), _norm_ty(m_.group(1))), set()).add(n)
+                    continue
+                m_ = re.match(r"^(?:bin:)?.*<impl core::convert::(TryFrom|From)<(.+)> for (.+)>::(try_from|from)$", n)
+                if m_:
+                    conv.setdefault((m_.group(1), _norm_ty(m_.group(2)), _norm_ty(m_.group(3))), set()).add(n)
+            if conv:
+                for n, b in self.bodies.items():
+                    for c in b.calls("re:^<T as core::convert::(TryInto|Into)<U>>::(try_into|into)$"):
+                        if len(c.targs) >= 2:
+                            kind = "TryFrom" if c.name.endswith("try_into") else "From"
+                            for tgt in conv.get((kind, _norm_ty(c.targs[0]), _norm_ty(c.targs[1])), ()):
+                                cg[n].add(tgt)
             self._cg = cg
         return self._cg
 
